@@ -337,6 +337,9 @@ def judge(chk, c, name, corr):
     if c['known'] is None:
         chk.count('in_domain_not_known')
     good = bool(c['good'])
+    if good and c['known'] is not None:
+        # the class claims nothing here; counted so that a class wider than the failing inputs shows up in the evidence
+        chk.count('known_but_good_' + c['known'])
     if good and equal:
         if c['extract_notes']:
             corr.append(dict(payload_of(c), why='the extractor could not place every line of the real output'))
@@ -410,7 +413,7 @@ def run(chk):
                 chk.notes.append(f'witness of {c["expect_class"]} ({c["lang"]}) no longer fails: known={c["known"]} good={c["good"]}')
         judge(chk, c, f'witness-{k}', corr)
     # 2. generated programs
-    n = 420 if chk.tier == 'quick' else 9000
+    n = 1500 if chk.tier == 'quick' else 30000
     gen = Gen(rng)
     cases = []
     for k in range(n):
